@@ -1,11 +1,12 @@
 // C05 - SASL mechanism choice. chooseMechanism() is file-static: include the real translation unit.
+#include "c05_ranges.h"     // eager stand-in for std::views (the real <ranges> is switched off with -D_GLIBCXX_RANGES)
 #include "client/QXmppSaslManager.cpp"
 #include "vp_harness.h"
 
 using namespace QXmpp::Private;
 extern "C" {
 unsigned vp_c05_noff(); unsigned vp_c05_ndis();          // list lengths of the instance (constants on the C side)
-void *vp_c05_slot(unsigned k); void vp_c05_set_id(unsigned k, unsigned id);   // name slots owned by c05_str.c
+void *vp_c05_slot(unsigned k); void vp_c05_fill(unsigned k, unsigned row);   // name slots owned by c05_str.c (characters: table_c.inc)
 }
 
 // ---------------------------------------------------------------------------------------------------------------------
@@ -16,25 +17,22 @@ void *vp_c05_slot(unsigned k); void vp_c05_set_id(unsigned k, unsigned id);   //
 enum Fam { F_NONE = 0, F_XGOOGLE, F_XLIVE, F_XFACEBOOK, F_ANON, F_PLAIN, F_DIGEST, F_SCRAM, F_HT };
 enum { CB_ENDP = 0, CB_UNIQ = 1, CB_EXPR = 2, CB_NONE = 3 };
 struct Desc { Fam fam; int hash; int cb; };
+// optnone: keep switches as branches - at -O1 clang turns them into constant lookup tables indexed by the (symbolic) row,
+// and a symbolic-index read of a constant array is ~100x more expensive in the SAT encoding than the ite chain of a branch merge
+#define VP_NOTABLE __attribute__((optnone, noinline))
 
 #include "table.inc"
-static_assert(IDX_EMPTY == 38, "c05_cut.c: C05_ID_EMPTY");
 
 // A name is materialised as a QString over a static block (one slot per use, so that every data pointer is concrete):
 // size and characters are those of the table row selected by the symbolic index; the row is also recorded as ghost id.
-struct Slot { QArrayData hdr; char16_t data[C05_MAXLEN]; unsigned id; };
 static QString nameOf(unsigned slot, unsigned i)
 {
-    Slot &s = *static_cast<Slot *>(vp_c05_slot(slot));
-    s.hdr.ref.atomic.storeRelaxed(-1);   // static data, never freed (as QStringLiteral)
-    s.hdr.alloc = 0; s.hdr.capacityReserved = 0; s.hdr.offset = sizeof(QArrayData);
-    s.hdr.size = int(fillName(i, s.data));
-    vp_c05_set_id(slot, i);
-    return QString(QStringDataPtr { static_cast<QStringData *>(&s.hdr) });
+    vp_c05_fill(slot, i);
+    return QString(QStringDataPtr { static_cast<QStringData *>(vp_c05_slot(slot)) });
 }
 
 // enumerators <-> reference numbering, by NAME (independent of the numeric order in the implementation's headers)
-static int scramHash(SaslScramMechanism::Algorithm a)
+VP_NOTABLE static int scramHash(SaslScramMechanism::Algorithm a)
 {
     switch (a) {
     case SaslScramMechanism::Sha1: return 0;
@@ -44,7 +42,7 @@ static int scramHash(SaslScramMechanism::Algorithm a)
     }
     return -1;
 }
-static SaslScramMechanism::Algorithm scramOf(int h)
+VP_NOTABLE static SaslScramMechanism::Algorithm scramOf(int h)
 {
     switch (h) {
     case 0: return SaslScramMechanism::Sha1;
@@ -53,7 +51,7 @@ static SaslScramMechanism::Algorithm scramOf(int h)
     default: return SaslScramMechanism::Sha3_512;
     }
 }
-static int ianaHash(IanaHashAlgorithm a)
+VP_NOTABLE static int ianaHash(IanaHashAlgorithm a)
 {
     switch (a) {
     case IanaHashAlgorithm::Sha256: return 0;
@@ -66,7 +64,7 @@ static int ianaHash(IanaHashAlgorithm a)
     }
     return -1;
 }
-static IanaHashAlgorithm ianaOf(int h)
+VP_NOTABLE static IanaHashAlgorithm ianaOf(int h)
 {
     switch (h) {
     case 0: return IanaHashAlgorithm::Sha256;
@@ -78,7 +76,7 @@ static IanaHashAlgorithm ianaOf(int h)
     default: return IanaHashAlgorithm::Sha3_512;
     }
 }
-static int cbCode(SaslHtMechanism::ChannelBindingType t)
+VP_NOTABLE static int cbCode(SaslHtMechanism::ChannelBindingType t)
 {
     switch (t) {
     case SaslHtMechanism::TlsServerEndpoint: return CB_ENDP;
@@ -88,7 +86,7 @@ static int cbCode(SaslHtMechanism::ChannelBindingType t)
     }
     return -1;
 }
-static SaslHtMechanism::ChannelBindingType cbOf(int c)
+VP_NOTABLE static SaslHtMechanism::ChannelBindingType cbOf(int c)
 {
     switch (c) {
     case CB_ENDP: return SaslHtMechanism::TlsServerEndpoint;
@@ -146,7 +144,7 @@ static bool isDisabled(const Sym &s, unsigned name)
     return false;
 }
 // usable with the stored credentials
-static bool usable(const Sym &s, Desc d)
+VP_NOTABLE static bool usable(const Sym &s, Desc d)
 {
     switch (d.fam) {
     case F_HT: return s.hasHt && s.htHash == d.hash && s.htCb == d.cb && d.cb == CB_NONE;
@@ -296,3 +294,84 @@ extern "C" void h_default_plain()
     s.nDis = 1; s.disabled[0] = IDX_PLAIN;
     checkChoice(s, mech);
 }
+
+#ifdef VP_DEBUG_ENTRIES
+extern "C" void h_dbgD()
+{
+    keepHelpers();
+    Sym s; makeSym(s);
+    s.disabled[0] = 5; s.disabled[1] = 4; s.hasPreferred = false; s.password = true; s.fbToken = s.fbApp = s.liveToken = s.googleToken = false; s.hasHt = false;
+    QXmppConfiguration config;
+    applyConfig(config, s, false);
+    QList<QString> off = makeOffer(s);
+    auto [mech, disabledAvailable] = chooseMechanism(config, off);
+    vp_assert(!mech || !std::holds_alternative<SaslPlainMechanism>(*mech), "C05 dbg");
+}
+extern "C" void h_dbgE()
+{
+    keepHelpers();
+    Sym s; makeSym(s);
+    s.offered[0] = 1; s.disabled[0] = 5; s.disabled[1] = 4; s.hasPreferred = false;
+    QXmppConfiguration config;
+    applyConfig(config, s, false);
+    QList<QString> off = makeOffer(s);
+    auto [mech, disabledAvailable] = chooseMechanism(config, off);
+    vp_assert(!mech || !std::holds_alternative<SaslPlainMechanism>(*mech), "C05 dbg");
+}
+extern "C" void h_dbgF()
+{
+    keepHelpers();
+    Sym s; makeSym(s);
+    s.disabled[0] = 5; s.disabled[1] = 4; s.hasPreferred = false; s.password = true; s.fbToken = s.fbApp = s.liveToken = s.googleToken = false; s.hasHt = false;
+    QXmppConfiguration config;
+    applyConfig(config, s, false);
+    QList<QString> off = makeOffer(s);
+    const auto disabled = config.disabledSaslMechanisms();
+    bool r = disabled.contains(off.at(0));
+    vp_assert(r == (s.offered[0] == 5 || s.offered[0] == 4), "C05 dbg");
+}
+extern "C" void h_dbgG()
+{
+    keepHelpers();
+    Sym s; makeSym(s);
+    QList<QString> off = makeOffer(s);
+    auto m = SaslMechanism::fromString(off.at(0));
+    vp_assert(m.has_value() == (descOf(s.offered[0]).fam != F_NONE), "C05 dbg");
+}
+extern "C" void h_dbgH()
+{
+    keepHelpers();
+    Sym s; makeSym(s);
+    s.disabled[0] = 5; s.disabled[1] = 4; s.hasPreferred = false; s.password = true; s.fbToken = s.fbApp = s.liveToken = s.googleToken = false; s.hasHt = false;
+    QXmppConfiguration config;
+    applyConfig(config, s, false);
+    QList<QString> off = makeOffer(s);
+    auto m = SaslMechanism::fromString(off.at(0));
+    bool av = m && QXmppSaslClient::isMechanismAvailable(*m, config.credentialData());
+    vp_assert(av == usable(s, descOf(s.offered[0])), "C05 dbg");
+}
+extern "C" void h_dbgA()
+{
+    keepHelpers();
+    Sym s; makeSym(s);
+    QXmppConfiguration config;
+    applyConfig(config, s, false);
+    QList<QString> off = makeOffer(s);
+    vp_assert(off.size() == int(s.nOff), "C05 dbg");
+}
+extern "C" void h_dbgB()
+{
+    keepHelpers();
+    Sym s; makeSym(s);
+    QXmppConfiguration config;
+    QList<QString> off = makeOffer(s);
+    vp_assert(off.size() == int(s.nOff), "C05 dbg");
+}
+extern "C" void h_dbgC()
+{
+    keepHelpers();
+    Sym s; makeSym(s);
+    QList<QString> off = makeOffer(s);
+    vp_assert(off.size() == int(s.nOff), "C05 dbg");
+}
+#endif
